@@ -545,6 +545,14 @@ func GenDialogue(r *rand.Rand, o GenOpts) (Dialogue, GenStats) {
 		d.FirstOp = []string{"getprompt", "sendcommand", "readall", "readall"}[r.Intn(4)]
 	}
 	genTransport(r, &d)
+	if d.Driver != "netconf" {
+		switch r.Intn(12) {
+		case 0:
+			addLongMotd(r, p, &d, &st)
+		case 1:
+			addNotices(r, p, &d, &st)
+		}
+	}
 	if !o.NoStall && r.Intn(5) == 0 {
 		a := Analyse(&d)
 		cuts := a.AllowedCuts()
@@ -552,6 +560,78 @@ func GenDialogue(r *rand.Rand, o GenOpts) (Dialogue, GenStats) {
 	}
 	Finish(&d)
 	return d, st
+}
+
+// addLongMotd puts a banner of 1.2-5 x the session's prompt search depth (many lines, each within
+// the usual preconditions) between the last credential and the shell prompt: everything read since
+// the last answered prompt must still be there for the first operation. The transport parameters
+// are kept fast enough for thousands of bytes.
+func addLongMotd(r *rand.Rand, p *Patterns, d *Dialogue, st *GenStats) {
+	n := len(d.Steps)
+	if n == 0 || d.Steps[n-1].Kind != KShell {
+		return
+	}
+	target := int(float64(d.PSD) * (1.2 + 3.8*r.Float64()))
+	var lines []Line
+	for size := 0; size < target; {
+		for _, l := range genLines(r, p, "motd", d, 8, st) {
+			lines = append(lines, l)
+			size += len(l.S) + len(d.NL)
+		}
+	}
+	steps := append([]Step(nil), d.Steps[:n-1]...)
+	steps = append(steps, Step{Kind: KBanner, Lines: lines}, d.Steps[n-1])
+	d.Steps = steps
+	if d.ReadSize < 64 {
+		d.ReadSize = 64
+	}
+	if d.ReadDelay > 250 {
+		d.ReadDelay = 250
+	}
+	if d.Seg.Size < 16 {
+		d.Seg.Size = []int{16, 100}[r.Intn(2)]
+	}
+	if d.Seg.Mode == "geom" {
+		d.Seg.Mode = "mix"
+	}
+	if r.Intn(3) != 0 {
+		d.FirstOp = "readall"
+	}
+}
+
+// addNotices turns every password prompt of the dialogue into "notice that itself ends in
+// password:" + newline + real prompt, delivered uncut in one read (keyboard-interactive / LDAP /
+// TACACS style). Delivered in separate reads the notice would be answered as a prompt (ambiguous,
+// excluded); in one read the two lines are one match on the buffer and get one answer. The shell
+// that follows prints a few lines before its prompt, cut small, so that a client that answers the
+// same read twice types its password at the shell.
+func addNotices(r *rand.Rand, p *Patterns, d *Dialogue, st *GenStats) {
+	notices := []string{"Please enter your LDAP password:", "Keyboard-interactive authentication, enter password:", "(RADIUS) one-time password:",
+		"Enter your TACACS password:", "This system requires your domain Password: "}
+	changed := false
+	for i, s := range d.Steps {
+		if s.Kind != KPassword || s.Uncut {
+			continue
+		}
+		nt := mangleCase(r, notices[r.Intn(len(notices))])
+		if m := p.matches(nt); len(m) != 1 || m[0] != KPassword {
+			continue // the notice must look like a password prompt and like nothing else
+		}
+		d.Steps[i].Text = nt + d.NL + s.Text
+		d.Steps[i].Uncut = true
+		changed = true
+	}
+	n := len(d.Steps)
+	if !changed || n == 0 || d.Steps[n-1].Kind != KShell {
+		return
+	}
+	if n < 2 || d.Steps[n-2].Kind != KBanner || len(d.Steps[n-2].Lines) < 3 {
+		steps := append([]Step(nil), d.Steps[:n-1]...)
+		steps = append(steps, Step{Kind: KBanner, Lines: genLines(r, p, "motd", d, 3+r.Intn(4), st)}, d.Steps[n-1])
+		d.Steps = steps
+	}
+	d.Seg.Mode = []string{"fixed", "geom", "mix"}[r.Intn(3)]
+	d.Seg.Size = []int{2, 3, 7, 16}[r.Intn(4)]
 }
 
 func genTransport(r *rand.Rand, d *Dialogue) {
@@ -610,6 +690,43 @@ func Sweep(r *rand.Rand) []Dialogue {
 			} else {
 				d.Steps = []Step{{Kind: KSSHErr, Text: e}, final(&d)}
 			}
+			Finish(&d)
+			out = append(out, d)
+		}
+	}
+	// long post-login banners (both search depths, every first operation) and notice+prompt dialogues
+	var st GenStats
+	for _, auth := range []string{"telnet", "ssh"} {
+		for _, psd := range []int{1000, 300} {
+			for _, op := range []string{"readall", "getprompt", "sendcommand", "readall"} {
+				d := base(auth, []string{"generic", "network"}[n%2])
+				n++
+				d.PSD = psd
+				if auth == "telnet" {
+					d.Steps = []Step{{Kind: KUser, Text: "Username: "}, {Kind: KPassword, Text: "Password: "}, {Kind: KShell}}
+				} else {
+					d.Steps = []Step{{Kind: KPassword, Text: d.User + "@" + d.Host + "'s password: "}, {Kind: KShell}}
+				}
+				addLongMotd(r, sessionPatterns(auth, d.Driver), &d, &st)
+				d.FirstOp = op
+				Finish(&d)
+				out = append(out, d)
+			}
+		}
+		for k := 0; k < 6; k++ {
+			d := base(auth, []string{"generic", "network"}[n%2])
+			n++
+			pw := Step{Kind: KPassword, Text: d.User + "@" + d.Host + "'s password: "}
+			if auth == "telnet" {
+				pw.Text = "Password: "
+				d.Steps = []Step{{Kind: KUser, Text: "Username: "}, pw, {Kind: KShell}}
+			} else if k%2 == 0 {
+				d.Steps = []Step{pw, {Kind: KShell}}
+			} else {
+				d.Steps = []Step{pw, {Kind: KBanner, Lines: []Line{{S: "Sorry, try again."}}}, pw, {Kind: KShell}}
+			}
+			addNotices(r, sessionPatterns(auth, d.Driver), &d, &st)
+			d.FirstOp = []string{"getprompt", "sendcommand", "readall"}[k%3]
 			Finish(&d)
 			out = append(out, d)
 		}
@@ -754,7 +871,7 @@ func Analyse(d *Dialogue) *Analysis {
 			break
 		}
 		off, end := dev.StepOff[step], dev.StepEnd[step]
-		a.LastCred = [2]int{off + earliest(specFor(d.Steps[step].Kind), d.Steps[step].Text), end}
+		a.LastCred = [2]int{off + firstMatch(d.Steps[step]), end}
 		conn.Write([]byte(cred))
 		conn.Write([]byte(d.ReturnChar))
 	}
@@ -775,7 +892,7 @@ func Analyse(d *Dialogue) *Analysis {
 		case OutConn:
 			a.Need = off + sshFailureAt(s.Text)
 		case OutAuth:
-			a.Need = off + earliest(specFor(s.Kind), s.Text)
+			a.Need = off + firstMatch(s)
 		case OutOK:
 			if s.Kind == KHello {
 				a.Need = off + strings.Index(string(a.Stream[off:]), "]]>]]>") + 6
